@@ -6,7 +6,6 @@ import (
 
 	"golang.org/x/tools/go/ssa"
 
-	"tinkverif/bounds"
 	"tinkverif/consteval"
 	"tinkverif/core"
 	"tinkverif/guard"
@@ -190,15 +189,26 @@ func c04Trunc(c *Ctx) {
 		}
 		// the subtle constructor has its own inline limits: 10 <= tagLength <= 16 on every success path
 		if nf := p.PkgFunc("mac/subtle", "NewAESCMAC"); nf != nil && len(nf.Params) == 2 {
-			cx := bounds.NewCtx(nf)
+			// folded at the boundaries: key length 15/16/32, tag length 9/10/16/17
 			good := true
-			for _, ret := range guard.SuccessReturns(nf) {
-				facts := cx.FactsToLin(guard.BlockFacts(ret.Block()))
-				t := cx.Lin(nf.Params[1])
-				lo, _ := cx.Entails(facts, t.Add(bounds.Konst(10), -1))
-				hi, _ := cx.Entails(facts, bounds.Konst(16).Add(t, -1))
-				kl, _ := cx.Entails(facts, cx.LenOf(nf.Params[0]).Add(bounds.Konst(16), -1))
-				if !lo || !hi || !kl {
+			ev3 := consteval.New()
+			for _, pr := range []struct {
+				keyLen, tag int64
+				ok          bool
+			}{{32, 9, false}, {32, 10, true}, {32, 16, true}, {32, 17, false}, {15, 16, false}, {16, 16, true}} {
+				env := consteval.Env{consteval.LenKey(nf.Params[0]): consteval.C(pr.keyLen), ssa.Value(nf.Params[0]): consteval.Val{K: consteval.Ref}}
+				outs, okE := ev3.Eval(nf, []consteval.Val{{K: consteval.Ref}, consteval.C(pr.tag)}, env)
+				if !okE || len(outs) == 0 {
+					good = false
+					continue
+				}
+				some := false
+				for _, o := range outs {
+					if !(o.IsErr() || guard.DefinitelyFails(o.Ret)) {
+						some = true
+					}
+				}
+				if some != pr.ok {
 					good = false
 				}
 			}
